@@ -11,7 +11,7 @@ INV = {
             'Inv_C05_ForeignUntouched', 'Inv_C05_Orphan'],
     'C06': ['Inv_C06_AvailableJustified', 'Inv_C06_ControllerOf', 'Inv_C06_SucceededWhenAvailable', 'Act_C06_SucceededSticky',
             'Inv_C06_InTransition', 'Inv_C06_Archived', 'Inv_C06_ArchivedNotReconciled'],
-    'C07': ['Inv_C07_CreateJustified', 'Inv_C07_AtMostOnePerTemplateEpoch', 'Inv_C07_RevisionsUnique', 'Inv_C07_RevisionIncreasing', 'Inv_C07_NoReuse'],
+    'C07': ['Inv_C07_CreateJustified', 'Inv_C07_AtMostOnePerTemplateEpoch', 'Inv_C07_RevisionsUnique', 'Inv_C07_RevisionIncreasing', 'Inv_C07_NoReuse', 'Inv_C07_ProgressOnMismatch'],
     'C08': ['Inv_C08_ArchiveOnlyPaused', 'Inv_C08_NewestNeverArchived', 'Inv_C08_ArchiveCondition', 'Inv_C08_PruneOldestOnly', 'Inv_C08_SharedObjectNotDeleted'],
     'C09': ['Inv_C09_NoWritesWhilePaused', 'Inv_C09_StillReports', 'Inv_C09_DeploymentPausedNoRevisionChange', 'Inv_C09_ReleaseExactlyMarked', 'Inv_C09_Propagation'],
     'C10': ['Inv_C10_Quiescent', 'Inv_C10_SameOutcome', 'Inv_C10_DigestMatchesStore', 'Inv_C19_NoPanic'],
